@@ -529,6 +529,9 @@ pub fn run(tier: Tier) -> i32 {
 }
 
 pub fn replay(case: &J) -> Option<Vec<String>> {
+    if case.get("kind").and_then(|k| k.as_str()) != Some("c14") {
+        return None;
+    }
     let shape = case.get("shape")?.as_usizes()?;
     let data: Vec<f64> = case.get("values")?.as_arr()?.iter().map(|v| v.as_f64().unwrap_or(f64::NAN)).collect();
     let x = RefArray { shape, data };
